@@ -19,6 +19,7 @@ namespace xv
         F_ZSIGN = 4, // a zero of either sign is acceptable when the expected value is a zero
         F_SKIP1 = 8, // second output not demanded
         F_EXACT = 16, // bit-exact even for NaN (operations that act on the bit pattern only)
+        F_RANGE = 32, // floating result must lie in [e1, e2] as a number
     };
 
     template <class T>
@@ -234,6 +235,10 @@ namespace xv
         int shifts = 1; // every tuple is visited at `shifts` consecutive lane offsets
         uint64_t ntuples = 0, stride = 0;
         std::vector<std::vector<uint64_t>> literal; // replay: operand k of stream position p is literal[k][p % size]
+        int witness_L = 0; // lane-aware space: batches of exactly witness_L lanes (witness placements, see decode_witness)
+        int witness_type = 0;
+        std::vector<uint64_t> witness_vals, witness_vals2, witness_lattice;
+        uint64_t wit_a = 0, wit_b = 0, wit_c = 0; // number of batches per section
         int mask_kind = 0; // Boolean operands generated from 64-bit mask words, one word per 64 stream positions
         uint64_t mask_groups = 0;
         static inline uint64_t rev16(uint64_t x)
@@ -290,6 +295,22 @@ namespace xv
                 stride = (ntuples + 63) & ~63ull;
                 return;
             }
+            if (witness_L)
+            {
+                const uint64_t L = (uint64_t)witness_L;
+                wit_a = 4 * witness_vals.size() * L;
+                wit_b = 4 * witness_vals2.size() * witness_vals2.size() * (L * (L - 1) / 2);
+                wit_c = witness_lattice.empty() ? 0 : (witness_lattice.size() + L - 1) / L * L; // every lattice value at every lane
+                ntuples = wit_a + wit_b + wit_c;
+                shifts = 1;
+                stride = (ntuples * L + 63) & ~63ull;
+                // keep the stream a whole number of L*L groups (haddp consumes lanes*lanes elements per call)
+                uint64_t g = L * L;
+                if (g < 64)
+                    g = 64;
+                stride = (stride + g - 1) / g * g;
+                return;
+            }
             if (mask_kind)
             {
                 ntuples = mask_groups;
@@ -306,6 +327,75 @@ namespace xv
             stride = (ntuples + 64 + 63) & ~63ull;
         }
         uint64_t length() const { return stride * (uint64_t)shifts; }
+        // small signed integer -> bit pattern of the witness element type
+        inline uint64_t wit_small(int64_t v) const
+        {
+            if (witness_type == XV_F32)
+            {
+                float f = (float)v;
+                uint32_t u;
+                memcpy(&u, &f, 4);
+                return u;
+            }
+            if (witness_type == XV_F64)
+            {
+                double d = (double)v;
+                uint64_t u;
+                memcpy(&u, &d, 8);
+                return u;
+            }
+            int sz = xv_type_size[witness_type];
+            return sz == 8 ? (uint64_t)v : ((uint64_t)v & ((1ull << (sz * 8)) - 1));
+        }
+        inline uint64_t wit_background(uint64_t bg, uint64_t lane) const
+        {
+            switch (bg)
+            {
+            case 0:
+                return wit_small(0);
+            case 1:
+                return wit_small((int64_t)lane + 1);
+            case 2:
+                return wit_small(3);
+            default:
+                return wit_small((lane & 1) ? 2 : -2);
+            }
+        }
+        // section A: one witness value at one lane over a background; section B: two witnesses at lanes p<q;
+        // section C: the lattice, each value passing through every lane
+        inline uint64_t decode_witness(uint64_t pos) const
+        {
+            const uint64_t L = (uint64_t)witness_L;
+            uint64_t b = (pos / L) % ntuples, lane = pos % L;
+            if (b < wit_a)
+            {
+                uint64_t p = b % L, w = (b / L) % witness_vals.size(), bg = b / (L * witness_vals.size());
+                return lane == p ? witness_vals[w] : wit_background(bg, lane);
+            }
+            b -= wit_a;
+            if (b < wit_b)
+            {
+                const uint64_t np = L * (L - 1) / 2, nw = witness_vals2.size();
+                uint64_t pr = b % np, w1 = (b / np) % nw, w2 = (b / (np * nw)) % nw, bg = b / (np * nw * nw);
+                // pair index -> (p, q), p < q
+                uint64_t p = 0;
+                while (pr >= L - 1 - p)
+                {
+                    pr -= L - 1 - p;
+                    ++p;
+                }
+                uint64_t q = p + 1 + pr;
+                if (lane == p)
+                    return witness_vals2[w1];
+                if (lane == q)
+                    return witness_vals2[w2];
+                return wit_background(bg, lane);
+            }
+            b -= wit_b;
+            // batch b of section C: lattice values b + lane*stride' so that consecutive batches rotate the lattice through the lanes
+            const uint64_t N = witness_lattice.size();
+            return witness_lattice[(b + lane * ((N / L) | 1)) % N];
+        }
         // operand values of stream position p
         inline void decode(uint64_t p, uint64_t* vals) const
         {
@@ -319,6 +409,11 @@ namespace xv
             {
                 for (size_t k = 0; k < al.size(); ++k)
                     vals[k] = (maskword(p >> 6, (int)k) >> (p & 63)) & 1;
+                return;
+            }
+            if (witness_L)
+            {
+                vals[0] = decode_witness(p);
                 return;
             }
             uint64_t k = p / stride, q = p % stride;
@@ -449,6 +544,19 @@ namespace xv
         if (t == XV_F64)
             return (b & 0x7FF0000000000000ull) == 0x7FF0000000000000ull && (b & 0x000FFFFFFFFFFFFFull);
         return false;
+    }
+    inline double bits_to_double(uint64_t b, int t)
+    {
+        if (t == XV_F32)
+        {
+            uint32_t u = (uint32_t)b;
+            float f;
+            memcpy(&f, &u, 4);
+            return (double)f;
+        }
+        double d;
+        memcpy(&d, &b, 8);
+        return d;
     }
     inline bool bits_is_zero(uint64_t b, int t)
     {
@@ -675,6 +783,12 @@ namespace xv
                             uint64_t ab = load_bits((const char*)e2[o] + i * (size_t)osz, osz);
                             if ((f & F_ALT) && ob == ab)
                                 continue;
+                            if ((f & F_RANGE) && is_fp_type(ot))
+                            {
+                                double lo = bits_to_double(eb, ot), hi = bits_to_double(ab, ot), x = bits_to_double(ob, ot);
+                                if (x >= lo && x <= hi)
+                                    continue;
+                            }
                             if (is_fp_type(ot) && !(f & F_EXACT))
                             {
                                 if (bits_is_nan(eb, ot) && bits_is_nan(ob, ot))
